@@ -11,7 +11,10 @@ import vlib  # noqa: E402
 
 pid, name, what = sys.argv[1], sys.argv[2], sys.argv[3]
 case = json.load(sys.stdin)
-key = vlib.canon_key(case.get("src") or case.get("key_obj") or case)
+if case.get("file") and not case.get("src"):
+    key = vlib.canon_key(open(os.path.join(vlib.REPO, case["file"])).read())
+else:
+    key = vlib.canon_key(case.get("src") or case.get("key_obj") or case)
 d = os.path.join(vlib.VERIF, "findings", pid)
 os.makedirs(d, exist_ok=True)
 case["what"] = what
